@@ -280,6 +280,9 @@ func (g *Gen) next() Event {
 	if govW > 0 {
 		opts = append(opts, weighted{govW, func() Event { return g.govEvent() }})
 	}
+	if fam == "genesis" && g.early {
+		opts = append(opts, weighted{12, func() Event { return Event{Ev: "ExportImport"} }})
+	}
 	if donateW > 0 {
 		opts = append(opts, weighted{donateW, func() Event { return Event{Ev: "Donate", D: g.dname(), A: g.aname(), X: g.amount()} }})
 	}
